@@ -577,7 +577,9 @@ def rule_weight_group(prop, repo):
         R.instance()
         dom, rs = run_fn(F, b, [gpoint("s")])
         ks = [is_point_form(v) for v, _ in rs]
-        report(b, dom, "%s:weight:neg" % prop, len(rs) >= 1 and all(k in ({"s": 1}, "identity") for k in ks), "negation changes the scale: %s" % ks, {"fn": "G::neg", "k": str(ks)})
+        # on a path where z compared equal to one() the operand's own scale is 1 (weight {}), and so must the result's be
+        okn = [k in ({"s": 1}, "identity") or (k == {} and any(c[0] == "z==1" and c[2] for c in fr_.env.get("__pc", ()))) for k, (_, fr_) in zip(ks, rs)]
+        report(b, dom, "%s:weight:neg" % prop, len(rs) >= 1 and all(okn), "negation changes the scale: %s" % ks, {"fn": "G::neg", "k": str(ks)})
     b = get("<crate::groups::G<P> as core::cmp::PartialEq>::eq")
     if b:
         R.instance()
